@@ -199,7 +199,7 @@ pub(crate) mod __verif {
         Node::LookaroundAssertion { negate: false, backwards: false, start_group: 0, end_group: 0, contents: Box::new(Node::Empty) }
     }
 
-    // @obligation name=g1_alt_zero_width_last_arm props= fn=startpredicate::compute_start_predicate kind=bounded bound="Alt(ByteSequence[a], lookaround)" min_checks=50 w=3 timeout=1500
+    // @obligation name=g1_alt_zero_width_last_arm props=C04 fn=startpredicate::compute_start_predicate kind=bounded bound="Alt(ByteSequence[a], lookaround)" min_checks=50 w=3 timeout=1500
     // An alternation whose LAST arm is zero-width (a lookaround) can match at any offset: its predicate must be Arbitrary.
     #[kani::proof]
     #[kani::unwind(3)]
@@ -213,7 +213,7 @@ pub(crate) mod __verif {
         kani::cover!(true);
     }
 
-    // @obligation name=g1_alt_zero_width_first_arm props= fn=startpredicate::compute_start_predicate kind=bounded bound="Alt(lookaround, ByteSequence[a])" min_checks=50 w=3 timeout=1500
+    // @obligation name=g1_alt_zero_width_first_arm props=C04 fn=startpredicate::compute_start_predicate kind=bounded bound="Alt(lookaround, ByteSequence[a])" min_checks=50 w=3 timeout=1500
     // The same with the zero-width arm first.
     #[kani::proof]
     #[kani::unwind(3)]
@@ -227,7 +227,7 @@ pub(crate) mod __verif {
         kani::cover!(true);
     }
 
-    // @obligation name=g1_alt_two_literals props= fn=startpredicate::compute_start_predicate kind=bounded bound="Alt(ByteSequence[a], ByteSequence[b]), symbolic bytes" min_checks=50 w=3 timeout=1500
+    // @obligation name=g1_alt_two_literals props=C04 fn=startpredicate::compute_start_predicate kind=bounded bound="Alt(ByteSequence[a], ByteSequence[b]), symbolic bytes" min_checks=50 w=3 timeout=1500
     // With two consuming arms the first byte of either arm is admitted.
     #[kani::proof]
     #[kani::unwind(3)]
@@ -245,7 +245,7 @@ pub(crate) mod __verif {
         kani::cover!(a != b);
     }
 
-    // @obligation name=g1_cat_skips_zero_width props= fn=startpredicate::compute_start_predicate kind=bounded bound="Cat[lookaround, ByteSequence[a]] and Cat[]" min_checks=50 w=3 timeout=1500
+    // @obligation name=g1_cat_skips_zero_width props=C04 fn=startpredicate::compute_start_predicate kind=bounded bound="Cat[lookaround, ByteSequence[a]] and Cat[]" min_checks=50 w=3 timeout=1500
     // A Cat takes the predicate of its first child that has one (zero-width children are skipped); an empty Cat has none.
     #[kani::proof]
     #[kani::unwind(4)]
@@ -262,14 +262,26 @@ pub(crate) mod __verif {
         kani::cover!(true);
     }
 
-    // @obligation name=g1_loop_and_group props= fn=startpredicate::compute_start_predicate kind=bounded bound="Loop{min symbolic}(ByteSequence[a]) and CaptureGroup(ByteSequence[a])" min_checks=50 w=3 timeout=1500
+    // @obligation name=g1_loop_and_group props= fn=startpredicate::compute_start_predicate kind=bounded bound="Loop{min 1}(ByteSequence[a])" min_checks=50 w=3 timeout=1500
     // A loop contributes its body's predicate only if it must run at least once, else Arbitrary; groups are transparent.
     #[kani::proof]
     #[kani::unwind(3)]
     #[kani::stub(cps_to_first_byte_bitmap, no_cps_bitmap)]
     fn g1_loop_and_group() {
+        g1_loop_body(1);
+    }
+
+    // @obligation name=g1_loop_optional props= fn=startpredicate::compute_start_predicate kind=bounded bound="Loop{min 0}(ByteSequence[a])" min_checks=50 w=3 timeout=1500
+    // A loop that may run zero times imposes no start predicate.
+    #[kani::proof]
+    #[kani::unwind(3)]
+    #[kani::stub(cps_to_first_byte_bitmap, no_cps_bitmap)]
+    fn g1_loop_optional() {
+        g1_loop_body(0);
+    }
+
+    fn g1_loop_body(min: usize) {
         let a: u8 = kani::any();
-        let min: usize = kani::any();
         let n3 = Node::Loop { loopee: Box::new(Node::ByteSequence(vec![a])), quant: ir::Quantifier { min, max: None, greedy: true }, enclosed_groups: 0..0 };
         let r3 = compute_start_predicate(&n3);
         if min > 0 {
@@ -277,11 +289,22 @@ pub(crate) mod __verif {
         } else {
             assert!(matches!(&r3, Some(ASP::Arbitrary)), "a loop that may run zero times imposes nothing");
         }
+        core::mem::forget((n3, r3));
+        kani::cover!(true);
+    }
+
+    // @obligation name=g1_group_transparent props=C04 fn=startpredicate::compute_start_predicate kind=bounded bound="CaptureGroup(ByteSequence[a])" min_checks=50 w=3 timeout=1500
+    // A capture group contributes its contents' predicate.
+    #[kani::proof]
+    #[kani::unwind(3)]
+    #[kani::stub(cps_to_first_byte_bitmap, no_cps_bitmap)]
+    fn g1_group_transparent() {
+        let a: u8 = kani::any();
         let n4 = Node::CaptureGroup { id: 0, contents: Box::new(Node::ByteSequence(vec![a])), name: None };
         let r4 = compute_start_predicate(&n4);
         assert!(matches!(&r4, Some(ASP::Sequence(v)) if v[0] == a));
-        core::mem::forget((n3, n4, r3, r4));
-        kani::cover!(min == 0);
+        core::mem::forget((n4, r4));
+        kani::cover!(true);
     }
 
     // @obligation name=g2_is_start_anchored props=C04 fn=startpredicate::is_start_anchored,startpredicate::predicate_for_re kind=bounded bound="^ alone, Cat[^, x], Alt(^a, b), Alt(^a, ^b), $ ; multiline symbolic" min_checks=50 w=3 timeout=1500
